@@ -290,6 +290,10 @@ def run(ctx) -> None:
                 ok_m = conds == [f"{K} not in {ST2}.values"]
                 why_m = "every requested name that is absent from the state is handed to the on_missing policy" if ok_m else f"the list of missing names is filtered by {conds}: more than absence from the state decides whether the policy sees a name"
     rep.add("C16.R5", f"{cs.qname}:every-missing-name-reaches-policy", ok_m, cs.loc(), why_m)
+    # the policy (and the selection it applies to) the caller gave to map() is the one every item runs under
+    from .c10 import check_map_forwards_options
+
+    check_map_forwards_options(ctx, "C16.R5", only={"on_missing", "select"})
     # sentinel passed is the module constant
     sent_ok = all(any(isinstance(a, ast.Name) and a.id == "_EMIT_SENTINEL" for a in c.args) for c in db.calls_in(fo) if call_names(db, c, fo) & {ca.name, cs.name})
     check_sentinel_by_identity(ctx, "C16.R3")
